@@ -136,6 +136,8 @@ class AbstractAst:
             parser._listeners = [self.parserErrorListenerType()]
             if not isinstance(parser._listeners[0], ErrorListener):
                 raise RTAMTException('{} is not ANTRL4 ErrorListener'.format(parser._listeners[0].__class__.__name__))
+            # characters that no token rule matches are errors too (the default listener only prints them and skips them)
+            lexer._listeners = [parser._listeners[0]]
         ctx = parser.specification_file()
         self.visit(ctx.specification())
         return
